@@ -96,7 +96,8 @@ func (g *StoreGen) extraTags(e *mocrelay.Event) {
 	n := g.R.IntN(3)
 	for i := 0; i < n; i++ {
 		// multi-letter names whose first letter is a filter key must not be mistaken for it
-		name := Pick(g.R, []string{"t", "p", "e", "t", "client", "title", "emoji", "pow"})
+		// and upper-case single letters (NIP-22 uses E, A, K, P) are tag names of their own
+		name := Pick(g.R, []string{"t", "p", "e", "t", "client", "title", "emoji", "pow", "T", "E", "P", "K"})
 		switch g.R.IntN(5) {
 		case 0:
 			e.Tags = append(e.Tags, mocrelay.Tag{name})
@@ -299,7 +300,7 @@ func (g *FilterGen) Filter() *mocrelay.ReqFilter {
 		f.Tags = map[string][]string{}
 		n := 1 + r.IntN(2)
 		for i := 0; i < n; i++ {
-			name := Pick(r, []string{"t", "p", "e", "d"})
+			name := Pick(r, []string{"t", "p", "e", "d", "t", "p", "e", "d", "T", "E", "P"})
 			vals := subset(r, SGTagValues, "absent")
 			if name == "d" {
 				vals = subset(r, sgDValues, "absent")
